@@ -138,10 +138,10 @@ proof fn lemma_header_attrs_ok()
                 proof { assert(*hdr == hs[q]);
                         if wf { crate::verif_lemmas::lemma_loop1_step(m, hs, ops, qs, q, m.contains_key(str_of(hs[q]@))); } }
 '''},
-         {'before': '$BUF.put(attr.to_bytes());', 'nth': 0, 'optional': True, 'text': '''
+         {'before': '$BUF.put(', 'nth': 0, 'optional': True, 'text': '''
                     proof { assert(m.contains_key(str_of(hdr@)) && m[str_of(hdr@)] == *attr); }
 '''},
-         {'after': '$BUF.put(attr.to_bytes());', 'nth': 0, 'optional': True, 'text': '''
+         {'after': '$BUF.put(', 'stmt': True, 'nth': 0, 'optional': True, 'text': '''
                     proof { if wf {
                         crate::verif_lemmas::lemma_keys_enc_push(m, ops, str_of(hdr@));
                         ops = ops.push(str_of(hdr@));
@@ -159,7 +159,7 @@ proof fn lemma_header_attrs_ok()
                     if wf { crate::verif_lemmas::lemma_loop2_step(m, ops1, vks, ops, ps, p, target_rank(m[vks[p]].sname()) == 4); }
                 }
 '''},
-         {'after': '$BUF.put(attr.to_bytes());', 'nth': 1, 'optional': True, 'text': '''
+         {'after': '$BUF.put(', 'stmt': True, 'nth': 1, 'optional': True, 'text': '''
                     proof { if wf {
                         crate::verif_lemmas::lemma_keys_enc_push(m, ops, vks[p]);
                         ops = ops.push(vks[p]);
